@@ -486,7 +486,7 @@ func extractElGamalPublicKey(data []byte, pubKeySize int) (types.ReceivingPublic
 // extractPaddingData extracts padding bytes from the data at the specified range.
 // Returns a copy of the padding data.
 func extractPaddingData(data []byte, paddingStart, paddingEnd int) []byte {
-	return data[paddingStart:paddingEnd]
+	return append([]byte(nil), data[paddingStart:paddingEnd]...)
 }
 
 // extractEd25519SigningKey extracts and validates an Ed25519 signing public key from the data.
@@ -497,7 +497,7 @@ func extractEd25519SigningKey(data []byte, offset, sigKeySize int) (types.Signin
 		log.WithError(err).Error("Invalid Ed25519 public key length")
 		return nil, err
 	}
-	signingPubKeyData := data[offset : offset+sigKeySize]
+	signingPubKeyData := append([]byte(nil), data[offset:offset+sigKeySize]...)
 	ed25519Key, err := ed25519.NewEd25519PublicKey(signingPubKeyData)
 	if err != nil {
 		return nil, oops.Wrapf(err, "failed to construct Ed25519 signing key")
